@@ -129,6 +129,10 @@ fn named_inputs_never_panic() {
         "é}", "{é", "\\catcode`é=1 é", "\u{10FFFF}\\undefinedcommand", "\\count300000=1 é", "é\n\n\\undefinedcommand é\n",
         "\u{feff}\\undefinedcommand", "\t\\undefinedcommand\té", "\\input é", "\\csname é\\endcsname \\undefinedcommand",
         // the input ends inside a construct, after lines that hold multi-byte characters
+        // the ^^ notation at the end of a line / of the input, with and without an end-of-line character appended
+        "\\endlinechar=-1 \nA^^\nB", "A^^", "A^^\n", "^^", "^^4", "^^4\n", "^^é", "^^M^^", "\\endlinechar=-1 \n^^4", "\\endlinechar=300 \n^^", "\\^^", "\\a^^\n", "\\endlinechar=-1 \n\\^^", "\\endlinechar=-1 \n^^^", "^^^^", "^^\u{7f}",
+        // the OFFENDING token itself is non-ASCII (the error is rendered with that token highlighted)
+        "\\count 0=é", "\\catcode`é=é", "\\ifnum é", "\\dimen0=é", "\\skip0=1pt plus é", "\\def\\a#é{}", "\\countdef é", "é\\count0=日本", "\\count0=\u{301}", "\\count0=1é\\count0=é", "\\read 3 to é", "\\let é", "\\the é", "\\advance é",
         "éé\n\\count", "% ☕\n\\def\\a{", "é\n\n日本\n\\toks 0 = {unclosed", "ééé\n   \n\\advance", "☕☕☕\n\\ifcase 3 é", "é\\def\\a#1.{}\n\\a é",
     ];
     // every interaction mode, so that every recovery path runs (C09: "in any interaction mode")
@@ -161,7 +165,7 @@ fn primitive_grid_never_panics() {
     let shapes = ["", " ", "1", "-1", "{", "}", "x", "\\relax", "\\count1", "=1", "\\undefinedcs", "#", "~", "2147483647 ", "-2147483647 ", "{a}{b}", "\\par",
         "1=1", "1 1", "\\a", "\\a=1", "\\a\\a", "16=x", "255 ", "256 ", "32768 ", "-1=\\a", "1 to\\a", "\\a{#1}", "\\a#1#2{#2#1}", "\\a#1#1{}", "\\a#2{}",
         "\\a#1{#2}", "\\a{", "\\a}", "`", "`\\", "\"G", "'9", "1pt", "1pt plus", "1pt plus 1fil minus", "1.", ".", "--", "1true", "\\the", "\\the\\count", "é", "\u{10ffff}",
-        "15 to\\a", "16 to\\a", "17 to\\a", "2147483647 to\\a", "-1 to\\a", "\\noexpand\\a", "\\noexpand\\the", "\\noexpand\\iftrue", "\\expandafter\\noexpand\\a"];
+        "3 to 7", "3 to", "3 to{", "15 to\\a", "16 to\\a", "17 to\\a", "2147483647 to\\a", "-1 to\\a", "\\noexpand\\a", "\\noexpand\\the", "\\noexpand\\iftrue", "\\expandafter\\noexpand\\a"];
     let mut n = 0u64;
     let mut failures = 0;
     let mut try_src = |src: String| -> bool {
